@@ -103,8 +103,14 @@ class LimitedRateLimiter(RateLimiter):
         # long as the other connection keeps asking
         async with self._waiters:
             while True:
+                was_full = self.bucket == self.limit_bps
                 is_empty = self.refill()
                 if not is_empty:
+                    if was_full:
+                        # A full bucket is not refilled and does not look at
+                        # the clock: the time during which it was full should
+                        # not be credited now that tokens are taken from it
+                        self.last_refill = time.monotonic()
                     self.bucket -= self.MIN_BUCKET_SIZE
                     return self.MIN_BUCKET_SIZE
 
